@@ -44,14 +44,9 @@ def argmax : List Rat → Nat
   | [] => 0
   | x :: xs => argmaxFrom xs 1 0 x
 
-/-- insertion into an ascending duplicate-free list (`np.unique`) -/
-def insertU (x : Int) : List Int → List Int
-  | [] => [x]
-  | y :: ys => if x < y then x :: y :: ys else if x = y then y :: ys else y :: insertU x ys
-
-/-- `np.unique(labels[labels >= 0])` -/
+/-- `np.unique(labels[labels >= 0])`: ascending, duplicate-free (insertion as in `Vote.setInsert`) -/
 def uniqueLabels (labels : List Int) : List Int :=
-  (labels.filter (0 ≤ ·)).foldr insertU []
+  (labels.filter (0 ≤ ·)).foldr Vote.setInsert []
 
 /-- position of `x` in a list (`return_inverse`), the length if absent -/
 def indexOf (x : Int) (l : List Int) : Nat := l.findIdx (· == x)
@@ -157,8 +152,9 @@ namespace Diffusion
     The membership matrix has dtype `bool`, so the assignment of `0.5` stores `True`: the rows of the nodes
     without label start at 1 in every column (observed on the implementation; the model mirrors it). -/
 def initTemps (labels : List Int) (uniq : List Int) : List (List Rat) :=
-  labels.map fun l =>
-    if 0 ≤ l then tab uniq.length fun k => if indexOf l uniq == k then 1 else 0
+  tab labels.length fun i =>
+    if 0 ≤ labels.getD i (-1) then
+      tab uniq.length fun k => if indexOf (labels.getD i (-1)) uniq == k then 1 else 0
     else List.replicate uniq.length 1
 
 /-- `normalize(adjacency)`: row `i` as (column, weight / Σ|weights|) -/
